@@ -42,7 +42,7 @@ def generate(rng, tier) -> dict:
     kind = rng.choice(["fil", "fil", "fil", "tim"])
     pulse = rng.random() < 0.12
     ratio = rng.choice([7.0, 10.0, 10.001, 3.3333, 12.5, round(rng.uniform(2.5, 40.0), 4), rng.randint(3, 20) + rng.choice([0.0, 1e-3, -1e-3])])
-    accel = rng.choice([0.0, 0.0, 5.0, -5.0, 250.0, -250.0])
+    accel = rng.choice([0.0, 0.0, 5.0, -250.0, "big", "big", "big"])
     sc = {"kind": kind, "ratio": ratio, "accel": accel, "faults": []}
     mx = 160 if tier == "quick" else 600
     if kind == "fil":
@@ -63,6 +63,7 @@ def generate(rng, tier) -> dict:
         nb_eff = max(nbands, 1)  # the library's size check uses nbands before capping it to nchans
         nints = rng.randint(1, max(1, min(4, budget // nb_eff)))
         nbins = rng.randint(1, max(1, min(16, budget // (nb_eff * nints))))
+        sc["accel"] = _resolve_accel(rng, sc["accel"], N)
         sc.update({"files": spec, "dm": dm, "nbins": nbins, "nints": nints, "nbands": nbands})
         ops = []
         for _ in range(2):
@@ -74,11 +75,22 @@ def generate(rng, tier) -> dict:
         n = rng.randint(20, mx * 3)
         nints = rng.randint(1, max(1, min(4, n // 10)))
         nbins = rng.randint(1, max(1, min(16, n // (10 * nints))))
+        sc["accel"] = _resolve_accel(rng, sc["accel"], n)
         sc.update({"n": n, "vseed": rng.randrange(1 << 16), "nbins": nbins, "nints": nints, "ops": [{"gulp": 1}]})
         if pulse:
             k = rng.randint(3, 12)
             sc.update({"pulse": k, "ratio": float(k), "accel": 0.0})
     return sc
+
+
+def _resolve_accel(rng, accel, nsamp_total):
+    """"big": an acceleration whose drift term a*tobs/(2c) is 0.3%..30%, i.e. large enough to move
+    samples across phase bins within these short observations (the statement says *all*
+    accelerations; physically plausible ones change nothing over a fraction of a second)."""
+    if accel != "big":
+        return accel
+    frac = rng.choice([0.003, 0.02, 0.1, 0.3]) * rng.choice([1, -1])
+    return float(np.float32(frac * 2 * C / (nsamp_total * TSAMP)))
 
 
 def fixup(sc):
@@ -175,6 +187,8 @@ def execute(sc, ctx) -> None:
     nbins, nints = sc["nbins"], sc["nints"]
     if sc["accel"] != 0:
         ctx.probe("accel!=0")
+    if abs(sc["accel"]) > 1e4:
+        ctx.probe("accel-moves-bins")
     if abs(sc["ratio"] - round(sc["ratio"])) < 5e-3:
         ctx.probe("near-integer-period-ratio")
     ctx.sig += [kind, f"accel{sc['accel'] != 0}"]
